@@ -29,17 +29,21 @@ var (
 	exAC             = hx.Op{K: "excise", Key: "a", End: "c"}
 	ingExAC          = hx.Op{K: "ingestexcise", Key: "a", End: "c", Sub: sub(hx.Op{K: "set", Key: "b"})}
 	// an ingested table whose largest point key equals the (exclusive) excise end
-	ingExACc = hx.Op{K: "ingestexcise", Key: "a", End: "c", Sub: sub(hx.Op{K: "set", Key: "b"}, hx.Op{K: "set", Key: "c"})}
-	batchAB  = hx.Op{K: "batch", Sub: sub(hx.Op{K: "set", Key: "a"}, hx.Op{K: "del", Key: "b"})}
-	batchBig         = hx.Op{K: "batch", Big: true, Sub: sub(hx.Op{K: "set", Key: "a"}, hx.Op{K: "set", Key: "c"})}
-	rksAC            = hx.Op{K: "rkset", Key: "a", End: "c", Suf: "@1"}
-	rkdAB            = hx.Op{K: "rkdel", Key: "a", End: "b"}
-	snap, closesnap  = hx.Op{K: "snap"}, hx.Op{K: "closesnap"}
-	iter, closeiter  = hx.Op{K: "iter"}, hx.Op{K: "closeiter"}
-	clone            = hx.Op{K: "clone"}
-	efos, closeefos  = hx.Op{K: "efos"}, hx.Op{K: "closeefos"}
-	waitefos         = hx.Op{K: "waitefos"}
-	ratchet          = hx.Op{K: "ratchet"}
+	ingExACc        = hx.Op{K: "ingestexcise", Key: "a", End: "c", Sub: sub(hx.Op{K: "set", Key: "b"}, hx.Op{K: "set", Key: "c"})}
+	batchAB         = hx.Op{K: "batch", Sub: sub(hx.Op{K: "set", Key: "a"}, hx.Op{K: "del", Key: "b"})}
+	batchBig        = hx.Op{K: "batch", Big: true, Sub: sub(hx.Op{K: "set", Key: "a"}, hx.Op{K: "set", Key: "c"})}
+	rksAC           = hx.Op{K: "rkset", Key: "a", End: "c", Suf: "@1"}
+	rkdAB           = hx.Op{K: "rkdel", Key: "a", End: "b"}
+	snap, closesnap = hx.Op{K: "snap"}, hx.Op{K: "closesnap"}
+	iter, closeiter = hx.Op{K: "iter"}, hx.Op{K: "closeiter"}
+	clone           = hx.Op{K: "clone"}
+	efos, closeefos = hx.Op{K: "efos"}, hx.Op{K: "closeefos"}
+	waitefos        = hx.Op{K: "waitefos"}
+	ratchet         = hx.Op{K: "ratchet"}
+	// hold: flushes are held back (queued memtables, large batches and flushable ingests with their
+	// excise spans stay in the flushable queue, reads go through them); release: let them go and
+	// wait. flush/compact/waitefos/ratchet/close release by themselves.
+	hold, release = hx.Op{K: "hold"}, hx.Op{K: "release"}
 )
 
 // bulk pre-state for value separation: 60 keys k00..k59 with 200-byte distinct values (every 5th
@@ -82,6 +86,7 @@ var (
 	fsplit   = hx.Config{Name: "flushsplit", L0Sublevels: true}
 	tinyMem  = hx.Config{Name: "tiny-memtable", MemTableSize: 16 << 10}
 	fmv16    = hx.Config{Name: "fmv-18", FMV: 18}
+	deepQ    = hx.Config{Name: "held-flushes", DeepQueue: true}
 	l0l6     = []hx.Op{setA, setB, flush, compact, setA, flush}
 )
 
@@ -108,6 +113,7 @@ func plansFor(prop string, th bool) []plan {
 			// Pebble's default compaction thresholds: after the tombstone is flushed nothing but a
 			// delete-only compaction (driven by the table-stats hint) is eligible
 			{name: "snapshots-default-thresholds-tablestats", cfg: autoDef, mon: rd, pre: []hx.Op{setA, setB, flush, compact}, alpha: []hx.Op{snap, drAC, flush, setA, closesnap, delA, drAB, snap}, depth: d(3, 4), need: [][]string{{"snap"}, {"delrange"}}},
+			{name: "snapshots-held-flushes", cfg: deepQ, mon: rd, alpha: []hx.Op{hold, setA, snap, ingA, delA, exAB, release, batchBig, closesnap, ingExAC, flush}, depth: d(4, 5), need: [][]string{{"snap"}, {"hold"}, {"ingest", "excise", "ingestexcise", "batch"}}},
 			{name: "snapshots-with-excise", cfg: baseCfg, mon: rd, alpha: []hx.Op{setA, setB, snap, exAB, flush, delA, compact, ingExAC, closesnap}, depth: d(4, 5), need: [][]string{{"snap"}, {"excise", "ingestexcise"}}},
 		}
 		if th {
@@ -123,6 +129,7 @@ func plansFor(prop string, th bool) []plan {
 			{name: "iterators-l0+l6", cfg: baseCfg, mon: rd, pre: l0l6, alpha: a, depth: d(3, 4), need: [][]string{{"iter"}, maint}},
 			{name: "iterators-autocompact", cfg: auto, mon: rd, alpha: a[:9], depth: d(3, 4), need: [][]string{{"iter"}}},
 			{name: "iterators-tinymem", cfg: tinyMem, mon: rd, alpha: a, depth: d(3, 4), need: [][]string{{"iter"}}},
+			{name: "iterators-held-flushes", cfg: deepQ, mon: rd, alpha: []hx.Op{hold, setA, iter, ingA, delA, exAB, release, batchBig, clone, ingExAC, closeiter}, depth: d(4, 5), need: [][]string{{"iter"}, {"hold"}, {"ingest", "excise", "ingestexcise", "batch"}}},
 		}
 		return ps
 	case "C37":
@@ -131,6 +138,7 @@ func plansFor(prop string, th bool) []plan {
 			{name: "efos", cfg: baseCfg, mon: rd, alpha: a, depth: d(4, 5), need: [][]string{{"efos"}, {"flush", "waitefos", "excise", "ingestexcise", "compact"}}},
 			{name: "efos-l0+l6", cfg: baseCfg, mon: rd, pre: l0l6, alpha: a, depth: d(3, 4), need: [][]string{{"efos"}, {"flush", "waitefos", "excise", "ingestexcise", "compact"}}},
 			{name: "efos-autocompact", cfg: auto, mon: rd, alpha: a[:10], depth: d(3, 4), need: [][]string{{"efos"}}},
+			{name: "efos-held-flushes", cfg: deepQ, mon: rd, alpha: []hx.Op{hold, setA, efos, ingA, delA, release, waitefos, setB, ingB, closeefos}, depth: d(4, 5), need: [][]string{{"efos"}, {"hold"}}},
 		}
 	case "C14":
 		a := []hx.Op{setA, setB, delA, mergeB, drAC, flush, compact, compactAB, snap, iter, efos, ratchet, ingA}
@@ -161,6 +169,7 @@ func plansFor(prop string, th bool) []plan {
 			// manual compactions with LBaseMaxBytes=1: data rests in intermediate levels, so an ingest
 			// has to stop above it
 			{name: "levels-intermediate", cfg: tinyLB, mon: lv, pre: []hx.Op{setA, setB, flush, compact, setB, flush, compact}, alpha: []hx.Op{ingA, ingB, setA, flush, compact, ing2, exAB, delA, ingBdr}, depth: d(3, 4), need: [][]string{{"ingest"}}},
+			{name: "levels-held-flushes", cfg: deepQ, mon: lv, alpha: []hx.Op{hold, setA, setB, ingA, exAB, ingExAC, release, batchBig, flush, ingBdr, compact}, depth: d(4, 5), need: [][]string{{"hold"}, {"ingest", "excise", "ingestexcise"}}},
 			{name: "levels-excise-end-key", cfg: baseCfg, mon: lv, pre: []hx.Op{setC, flush, setA}, alpha: []hx.Op{ingExACc, flush, ingExAC, compact, setC, exAB, ingA, delA}, depth: d(3, 4), need: [][]string{{"ingestexcise"}}},
 		}
 	case "C36":
@@ -174,6 +183,10 @@ func plansFor(prop string, th bool) []plan {
 			// excise spans that start inside existing tables/spans (left remainders), with range deletions
 			// and range keys straddling the span
 			{name: "excise-left-remainder", cfg: baseCfg, mon: rd, alpha: []hx.Op{drAC, rksAC, setB, flush, exBC, setA, iter, compact, ingRK, exAB}, depth: d(4, 5), need: [][]string{{"excise"}}},
+			// flushes held back: an ingest or excise that overlaps the memtable is queued as a flushable
+			// (with its excise span) and must already read as applied; the caller's key buffers are
+			// overwritten after every call
+			{name: "ingest-excise-held-flushes", cfg: deepQ, mon: rd, alpha: []hx.Op{hold, setA, setB, ingA, exAB, ingExAC, release, iter, batchBig, exBC, ingRK, setC}, depth: d(4, 5), need: [][]string{{"hold"}, {"ingest", "ingestexcise", "excise"}}},
 			{name: "ingest-excise-end-key", cfg: baseCfg, mon: rd, pre: []hx.Op{setC, flush, setA}, alpha: []hx.Op{ingExACc, flush, ingExAC, compact, setC, exAB, iter, delA}, depth: d(3, 4), need: [][]string{{"ingestexcise"}}},
 		}
 	case "C39":
